@@ -339,10 +339,14 @@ fn build_respan_block_request<E: FieldElement<BaseField = Felt>>(
         + alphas[2].mul_base(addr_nxt - ONE)
         + alphas[3].mul_base(ZERO);
 
-    let state = &main_trace.chiplet_hasher_state(row - 2)[CAPACITY_LEN..];
-    let state_nxt = &main_trace.chiplet_hasher_state(row - 1)[CAPACITY_LEN..];
+    // the rate before the absorption is read from the hasher row which precedes the row of the
+    // next batch (addresses are 1-based row indexes); the absorbed values are the operation groups
+    // of the new batch held in the decoder's hasher registers.
+    let state_row = addr_to_row_index(addr_nxt) - 1;
+    let state = &main_trace.chiplet_hasher_state(state_row)[CAPACITY_LEN..];
+    let state_nxt = main_trace.decoder_hasher_state(row);
 
-    header + build_value(&alphas[8..16], state_nxt) - build_value(&alphas[8..16], state)
+    header + build_value(&alphas[8..16], &state_nxt) - build_value(&alphas[8..16], state)
 }
 
 /// Builds requests made to the hasher chiplet at the end of a block.
